@@ -130,9 +130,32 @@ class _Kernel:
 
 class _Guard:
     def __init__(s, e, book): s.e, s.book = e, book
-    def __gt__(s, o):
-        if o != 0: raise shim.TraceError('guard compared with %r' % (o,))
+    def __gt__(s, o):                                   # also reached by `0 < guard`
+        if isinstance(o, bool) or not isinstance(o, (int, float)) or o != 0:
+            raise shim.TraceError('guard compared with %r' % (o,))
         return s.book.decide(s.e)
+    def __bool__(s): raise shim.TraceError('truth value of a plane sum (only `sum > 0` is a known occupancy test)')
+
+
+class _MethodSumAsGuard:
+    """while add_defocus_blur is traced, `t.sum()` without an axis (the method spelling of the occupancy test
+    `torch.sum(t) > 0`) yields the same recorded guard object as `torch.sum(t)`; sums along an axis are untouched.
+    The patch is confined to the `with` block, tracer/shim.py is not edited; anything else done with a guard object
+    (arithmetic, other comparisons) raises: fail-closed."""
+    def __init__(s, book): s.book = book
+    def __enter__(s):
+        s.orig = orig = shim.T.sum
+        book = s.book
+
+        def sum_(t, axis=None, dim=None, *a, **k):
+            if axis is None and dim is None and not a and not k:
+                return _Guard(orig(t), book)
+            return orig(t, axis, dim, *a, **k)
+        shim.T.sum = sum_
+        return s
+    def __exit__(s, *a):
+        shim.T.sum = s.orig
+        return False
 
 
 class _GuardBook:
@@ -199,7 +222,8 @@ def _trace_defocus(g, cls, tag, C, n, empty):
                          number_of_planes=n, device='cpu', target_blur_size=BLUR_SIZE, blur_ratio=1.0,
                          multiplier=shim.var('mult'))
     ns['set_targets'](me)
-    ns['add_defocus_blur'](me)
+    with _MethodSumAsGuard(book):
+        ns['add_defocus_blur'](me)
     t_out, f_out, d_out = ns['get_targets'](me)
     assert t_out.shape == (n, C, H, W) and f_out.shape == (C, H, W), (t_out.shape, f_out.shape)
     if len(book.seen) != C * n:
